@@ -20,6 +20,10 @@ pub enum IoPlan {
     At { k: u64, decision: IoDecision },
     /// benign perturbation: seeded short writes / Interrupted at random operations
     Benign { seed: u64, per_mille: u32 },
+    /// from the k-th operation on the process may not write any file beyond `limit` bytes
+    /// (RLIMIT_FSIZE set at that instant: "the quota is reached at the moment of publication");
+    /// the operation itself proceeds
+    FsizeFrom { k: u64, limit: u64 },
 }
 
 static FIRED_FILE: Mutex<Option<std::path::PathBuf>> = Mutex::new(None);
@@ -189,6 +193,21 @@ impl verif_rt::Hooks for FHooks {
                 } else {
                     IoDecision::Proceed
                 }
+            }
+            Some(IoPlan::FsizeFrom { k: at, limit }) => {
+                if k == at {
+                    unsafe {
+                        let mut old: libc::rlimit = std::mem::zeroed();
+                        libc::getrlimit(libc::RLIMIT_FSIZE, &mut old);
+                        let new = libc::rlimit {
+                            rlim_cur: limit,
+                            rlim_max: old.rlim_max,
+                        };
+                        libc::setrlimit(libc::RLIMIT_FSIZE, &new);
+                    }
+                    st.io_fired = Some((k, rec));
+                }
+                IoDecision::Proceed
             }
             Some(IoPlan::Benign { per_mille, .. }) => {
                 let rng = st.rng.as_mut().unwrap();
